@@ -56,7 +56,7 @@ def common(sx, st, H, W, lab):
     sx.check(not blocks_movement(here), lab + '-agent-on-nonblocking', repr(here))
     sx.check(not isinstance(here, (Exit, MovingObstacle, Telepod)), lab + '-agent-not-on-exit/obstacle/telepod', f'{(py, px)} {here!r}')
     # no object instance used twice
-    objs = [o for _, o in cells(st)]
+    objs = [o for _, o in cells(st) if isinstance(o, (Door, Box))]  # objects with mutable state must not be shared between cells
     sx.check(len({id(o) for o in objs}) == len(objs), lab + '-distinct-instances')
     return py, px
 
